@@ -12,6 +12,7 @@ CAP_UNIT = 8  # demand k -> k/8, vehicle capacity cap/8 (dyadic: float arithmeti
 class CVRP(Adapter):
     name = "cvrp"
     module = "CVRP"
+    multistart = True
 
     def family(self, tier, seed=0):
         insts = []
